@@ -142,6 +142,8 @@ PROPS["C02"]["theorem_modules"] = PROPS["C02"]["theorem_modules"] + ["DecProofs.
 
 PROPS["C07"]["static_modules"] = PROPS["C07"]["static_modules"] + ["DecProofs.Static.Translated2"]
 
+PROPS["C07"]["theorem_modules"] = PROPS["C07"]["theorem_modules"] + ["DecProofs.Properties.C07BinConvCode"]
+
 # secondary build configuration of C02 (thorough tier): the tininess-after-rounding cargo feature
 PROPS["C02"]["feature_configs"] = [{"feature": "tiny_after", "judge_tiny_after": True}]
 
